@@ -8,6 +8,7 @@ from .report import EXIT_HARNESS
 REG = {
     "C01": ("vf.checks.ode_props", "C01"), "C02": ("vf.checks.ode_props", "C02"),
     "C03": ("vf.checks.ode_props", "C03"), "C04": ("vf.checks.ode_props", "C04"),
+    "C19": ("vf.checks.c19", "C19"),
 }
 
 
